@@ -2,6 +2,7 @@ package main
 
 import (
 	"fmt"
+	"math"
 	"math/rand"
 	"path/filepath"
 	"sort"
@@ -75,8 +76,11 @@ func inLimits(l0, l1 string, desc bool, s string) bool {
 }
 
 func runC12(r *hx.Result, cfg hx.Config) {
-	r.Rule = "in-package: (pattern, name) pairs from a 16-symbol alphabet incl. * ? [ ] \\ - ^ 0x00 0xff and a 2-byte rune, half of the names derived from the pattern so that they match; non-trivial = distinct pair on which Match returned true with a pattern containing a metacharacter or an escape. black-box: KEYS/SCAN/SEARCH/PDEL/HOOKS with MATCH patterns against client-side filtering of the unfiltered listing; non-trivial = distinct (dataset, query) whose result is a non-empty strict subset."
-	r.Assumptions = []string{"string order of the model is Go's byte-wise string order", "black-box listing without MATCH is the ground truth for filtering"}
+	r.Rule = "in-package: (pattern, name) pairs from a 16-symbol alphabet incl. * ? [ ] \\ - ^ 0x00 0xff and a 2-byte rune, half of the names derived from the pattern so that they match; non-trivial = distinct pair on which Match returned true with a pattern containing a metacharacter or an escape. black-box MATCH: KEYS/SCAN/SEARCH/PDEL/HOOKS with MATCH patterns against client-side filtering of the unfiltered listing; non-trivial = distinct (dataset, query) whose result is a non-empty strict subset. black-box WHERE/WHEREIN: objects whose fields f, g hold every value kind (numbers incl. negative / fractional / 0 / -0 / +-Inf / missing, mixed-case strings, true, false, null, JSON; NaN in every third dataset), queries in the min/max form with all four (-exclusivity combinations, the six operator forms and WHEREIN, two thirds of the bounds placed exactly ON a stored value (other spelling of the same value); a fixed directed dataset and query list first; ids compared with the extracted Model.Where (correspondence) and with a client-side evaluation of the documented rule (oracle), COUNT with the number of IDS, DESC with the reverse of ASC, SEARCH/WITHIN/INTERSECTS/NEARBY with SCAN; non-trivial = distinct (dataset, query) keeping a non-empty strict subset of the objects."
+	r.Assumptions = []string{"string order of the model is Go's byte-wise string order", "black-box listing without MATCH is the ground truth for filtering",
+		"field.ValueOf (token -> kind) is not modelled: the harness generates tokens of a known kind; a misclassification would show as a WHERE correspondence failure",
+		"finite numbers are decimals with at most 3 fractional digits, compared as integer thousandths in the model and as float64 in the oracle",
+		"the WHERE oracle leaves out NaN operands / NaN field values (unordered), JSON bounds containing an upper-case letter and a string bound spelled like an operator (model-only cases)"}
 	rng := rand.New(rand.NewSource(cfg.Seed))
 	drv, err := model.Start("glob")
 	if err != nil {
@@ -146,6 +150,7 @@ func runC12(r *hx.Result, cfg hx.Config) {
 		}
 	}
 	c12BlackBox(r, cfg, rng)
+	c12Where(r, cfg, rng, drv)
 }
 
 func respStrings(v srv.Value) []string {
@@ -326,6 +331,720 @@ func c12BlackBox(r *hx.Result, cfg hx.Config, rng *rand.Rand) {
 				r.Fail(hx.Failure{Kind: "oracle", Signature: "filter-PDEL",
 					What: fmt.Sprintf("PDEL pts %q left %q, expected survivors %q", p, got, want),
 					Case: map[string]interface{}{"pattern": p, "ids": fmt.Sprintf("%q", ids)}})
+			}
+		}()
+	}
+}
+
+// ---------------------------------------------------------------------------------------------
+// WHERE / WHEREIN (internal/server/token.go matchField / whereinT.match, internal/field Less):
+// black-box filtered queries compared with (a) the extracted model Model.Where (correspondence)
+// and (b) a client-side evaluation of the documented rule (oracle), plus COUNT = |IDS| and
+// DESC = reverse of ASC for the same filtered query.
+// ---------------------------------------------------------------------------------------------
+
+const (
+	kNull = iota
+	kFalse
+	kNumber
+	kString
+	kTrue
+	kJSON
+)
+
+// wval is a field value as field.ValueOf classifies tok.
+type wval struct {
+	kind int
+	data string  // String content / compact JSON / "true" "false" "null" / the number text
+	num  string  // model encoding of the number: nan, -inf, +inf or an integer number of thousandths
+	f    float64 // the number, for the oracle
+	tok  string  // a token that classifies as this value
+}
+
+func (v wval) enc() string { return fmt.Sprintf("%d:%s:%s", v.kind, model.H(v.data), v.num) }
+func (v wval) isNaN() bool { return v.kind == kNumber && v.num == "nan" }
+func (v wval) String() string {
+	return fmt.Sprintf("%s(%q)", [...]string{"Null", "False", "Number", "String", "True", "JSON"}[v.kind], v.data)
+}
+
+var wZero = wval{kind: kNumber, data: "0", num: "0", f: 0, tok: "0"}
+
+// numVal renders k thousandths as a decimal token (at most three fractional digits) in one of a
+// few spellings that all classify as the same Number.
+func numVal(k int64, variant int) wval {
+	neg := k < 0
+	a := k
+	if neg {
+		a = -k
+	}
+	s := fmt.Sprint(a / 1000)
+	if fr := a % 1000; fr != 0 {
+		s += "." + strings.TrimRight(fmt.Sprintf("%03d", fr), "0")
+	}
+	switch variant % 5 {
+	case 1: // trailing zeros
+		if strings.Contains(s, ".") {
+			if len(s)-strings.IndexByte(s, '.') <= 3 {
+				s += "0"
+			}
+		} else {
+			s += ".0"
+		}
+	case 2:
+		if !strings.Contains(s, ".") {
+			s += ".000"
+		}
+	case 3: // exponent spelling for whole numbers
+		if !strings.Contains(s, ".") {
+			s += "e0"
+		}
+	}
+	if neg || (k == 0 && variant%7 == 6) { // "-0" is a Number equal to 0
+		s = "-" + s
+	}
+	return wval{kind: kNumber, data: s, num: fmt.Sprint(k), f: float64(k) / 1000, tok: s}
+}
+
+func infVal(neg bool, variant int, bound bool) wval {
+	pos := []string{"inf", "+inf", "Inf", "+Infinity", "infinity"}
+	ng := []string{"-inf", "-Inf", "-Infinity"}
+	if bound {
+		pos = append(pos, "INF", "+INF")
+		ng = append(ng, "-INF")
+	}
+	if neg {
+		return wval{kind: kNumber, data: "-Inf", num: "-inf", f: math.Inf(-1), tok: ng[variant%len(ng)]}
+	}
+	return wval{kind: kNumber, data: "+Inf", num: "+inf", f: math.Inf(1), tok: pos[variant%len(pos)]}
+}
+
+func nanVal(variant int) wval {
+	return wval{kind: kNumber, data: "NaN", num: "nan", f: math.NaN(), tok: []string{"nan", "NaN"}[variant%2]}
+}
+
+// strVal: content over an alphabet with no digit, quote, backslash or blank, and none of the
+// letters needed to spell nan/inf/true/false/null; raw spelling needs a leading letter.
+func strVal(content string, quoted bool) wval {
+	tok := content
+	if quoted || content == "" || !((content[0] >= 'a' && content[0] <= 'z') || (content[0] >= 'A' && content[0] <= 'Z')) {
+		tok = `"` + content + `"`
+	}
+	return wval{kind: kString, data: content, num: "0", tok: tok}
+}
+
+func litVal(kind int, upper bool) wval {
+	s := map[int]string{kNull: "null", kFalse: "false", kTrue: "true"}[kind]
+	tok := s
+	if upper { // only valid where the parser lower-cases the token (WHERE bounds)
+		tok = strings.ToUpper(s[:1]) + s[1:]
+	}
+	return wval{kind: kind, data: s, num: "0", tok: tok}
+}
+
+var jsonPool = [][2]string{ // token, compact form (pretty.Ugly)
+	{`{}`, `{}`}, {`[]`, `[]`}, {`{"a":1}`, `{"a":1}`}, {`{"a": 1}`, `{"a":1}`}, {`{"a":2}`, `{"a":2}`},
+	{`[1,2]`, `[1,2]`}, {`[1, 2]`, `[1,2]`}, {`[1,3]`, `[1,3]`}, {`{"b":1}`, `{"b":1}`}, {`{"B":1}`, `{"B":1}`},
+	{`[true]`, `[true]`}, {`{"a":"Z"}`, `{"a":"Z"}`},
+}
+
+func jsonVal(i int) wval {
+	p := jsonPool[i%len(jsonPool)]
+	return wval{kind: kJSON, data: p[1], num: "0", tok: p[0]}
+}
+
+var strAlphabet = []string{"a", "b", "A", "B", "z", "Z", "_", "^", "`", "@", "[", "{", "a", "b"}
+var numPool = []int64{0, 0, 1000, 2000, 2500, 3000, 4000, 4999, 5000, 5001, -1000, -2500, -1, 1, 500, 1000000, -1000000}
+
+const (
+	ctxField = iota
+	ctxBound
+	ctxWherein
+)
+
+func randWval(rng *rand.Rand, ctx int, allowNaN bool) wval {
+	switch x := rng.Intn(20); {
+	case x < 8:
+		if rng.Intn(3) == 0 {
+			return numVal(int64(rng.Intn(12001)-6000), rng.Intn(7))
+		}
+		return numVal(numPool[rng.Intn(len(numPool))], rng.Intn(7))
+	case x < 9:
+		return infVal(rng.Intn(2) == 0, rng.Intn(8), ctx == ctxBound)
+	case x < 14:
+		return strVal(randFrom(rng, strAlphabet, 3), rng.Intn(2) == 0)
+	case x < 15:
+		return litVal(kTrue, ctx == ctxBound && rng.Intn(3) == 0)
+	case x < 16:
+		return litVal(kFalse, ctx == ctxBound && rng.Intn(3) == 0)
+	case x < 17:
+		return litVal(kNull, ctx == ctxBound && rng.Intn(3) == 0)
+	case x < 19:
+		return jsonVal(rng.Intn(len(jsonPool)))
+	default:
+		if allowNaN {
+			return nanVal(rng.Intn(2))
+		}
+		return numVal(0, 0)
+	}
+}
+
+// respell gives another token of the same value (so that a bound sits exactly ON a stored value
+// without being textually identical to it).
+func respell(rng *rand.Rand, v wval, ctx int) wval {
+	switch v.kind {
+	case kNumber:
+		switch v.num {
+		case "nan":
+			return nanVal(rng.Intn(2))
+		case "+inf":
+			return infVal(false, rng.Intn(8), ctx == ctxBound)
+		case "-inf":
+			return infVal(true, rng.Intn(8), ctx == ctxBound)
+		}
+		var k int64
+		fmt.Sscan(v.num, &k)
+		return numVal(k, rng.Intn(7))
+	case kString:
+		c := v.data
+		if rng.Intn(2) == 0 { // flip the case of the letters: still Equal
+			b := []byte(c)
+			for i := range b {
+				if b[i] >= 'a' && b[i] <= 'z' && rng.Intn(2) == 0 {
+					b[i] -= 32
+				} else if b[i] >= 'A' && b[i] <= 'Z' && rng.Intn(2) == 0 {
+					b[i] += 32
+				}
+			}
+			c = string(b)
+		}
+		return strVal(c, rng.Intn(2) == 0)
+	case kJSON:
+		return v
+	}
+	return litVal(v.kind, ctx == ctxBound && rng.Intn(3) == 0)
+}
+
+// the documented value order, written independently of the model:
+// Null < False < Number < String < True < JSON; numbers numeric; strings case-insensitive;
+// everything else by its text.
+func wcmp(a, b wval) int {
+	if a.kind != b.kind {
+		if a.kind < b.kind {
+			return -1
+		}
+		return 1
+	}
+	switch a.kind {
+	case kNumber:
+		if a.f < b.f {
+			return -1
+		} else if a.f > b.f {
+			return 1
+		}
+		return 0
+	case kString:
+		return strings.Compare(strings.ToLower(a.data), strings.ToLower(b.data))
+	}
+	return strings.Compare(a.data, b.data)
+}
+
+type wclause struct {
+	wherein    bool
+	name       string
+	op         string // "" = the min/max form
+	minx, maxx bool
+	lo, hi     wval // op form: hi is the operand
+	vals       []wval
+	noOracle   string // why the documented rule says nothing about this clause ("" = it does)
+}
+
+func startsWithLetter(s string) bool {
+	return s != "" && ((s[0] >= 'a' && s[0] <= 'z') || (s[0] >= 'A' && s[0] <= 'Z'))
+}
+
+func (c wclause) args() []string {
+	if c.wherein {
+		a := []string{"WHEREIN", c.name, fmt.Sprint(len(c.vals))}
+		for _, v := range c.vals {
+			a = append(a, v.tok)
+		}
+		return a
+	}
+	if c.op != "" {
+		return []string{"WHERE", c.name, c.op, c.hi.tok}
+	}
+	smin, smax := c.lo.tok, c.hi.tok
+	if c.minx {
+		smin = "(" + smin
+	} else if startsWithLetter(smin) && strings.ToLower(smin) != "inf" {
+		// "WHERE name <letter...>" would be read as an expression: blank-prefix the token
+		// (field.ValueOf trims it)
+		smin = " " + smin
+	}
+	if c.maxx {
+		smax = "(" + smax
+	}
+	return []string{"WHERE", c.name, smin, smax}
+}
+
+func (c wclause) modelToks() []string {
+	if c.wherein {
+		t := []string{model.H(c.name), fmt.Sprint(len(c.vals))}
+		for _, v := range c.vals {
+			t = append(t, v.enc())
+		}
+		return t
+	}
+	if c.op != "" {
+		return []string{model.H(c.name), "0", wval{kind: kString, data: c.op, num: "0"}.enc(), "0", c.hi.enc()}
+	}
+	return []string{model.H(c.name), model.B(c.minx), c.lo.enc(), model.B(c.maxx), c.hi.enc()}
+}
+
+// keeps: the documented meaning of the clause for a field value
+func (c wclause) keeps(v wval) bool {
+	if c.wherein {
+		for _, x := range c.vals {
+			if wcmp(x, v) == 0 {
+				return true
+			}
+		}
+		return false
+	}
+	switch c.op {
+	case "<":
+		return wcmp(v, c.hi) < 0
+	case "<=":
+		return wcmp(v, c.hi) <= 0
+	case ">":
+		return wcmp(v, c.hi) > 0
+	case ">=":
+		return wcmp(v, c.hi) >= 0
+	case "==":
+		return wcmp(v, c.hi) == 0
+	case "!=":
+		return wcmp(v, c.hi) != 0
+	}
+	l, h := wcmp(c.lo, v), wcmp(v, c.hi)
+	return (l < 0 || (l == 0 && !c.minx)) && (h < 0 || (h == 0 && !c.maxx))
+}
+
+func (c wclause) describe() string {
+	if c.wherein {
+		var s []string
+		for _, v := range c.vals {
+			s = append(s, v.String())
+		}
+		return fmt.Sprintf("%s in {%s}", c.name, strings.Join(s, ", "))
+	}
+	if c.op != "" {
+		return fmt.Sprintf("%s %s %s", c.name, c.op, c.hi)
+	}
+	lt := map[bool]string{false: "<=", true: "<"}
+	return fmt.Sprintf("%s %s %s %s %s", c.lo, lt[c.minx], c.name, lt[c.maxx], c.hi)
+}
+
+func jsonHasUpper(v wval) bool { return v.kind == kJSON && v.data != strings.ToLower(v.data) }
+
+func (c *wclause) classify() {
+	all := append([]wval{}, c.vals...)
+	if !c.wherein {
+		all = append(all, c.hi)
+		if c.op == "" {
+			all = append(all, c.lo)
+		}
+	}
+	for _, v := range all {
+		if v.isNaN() {
+			c.noOracle = "NaN operand (unordered)"
+		}
+		if !c.wherein && jsonHasUpper(v) {
+			c.noOracle = "JSON bound with an upper-case letter (the parser lower-cases WHERE bounds)"
+		}
+	}
+}
+
+type wobj struct {
+	id     string
+	fields map[string]wval
+}
+
+func (o wobj) get(name string) wval {
+	if v, ok := o.fields[name]; ok {
+		return v
+	}
+	return wZero // missing fields read as 0
+}
+
+func (o wobj) modelToks() []string {
+	names := []string{}
+	for n := range o.fields {
+		names = append(names, n)
+	}
+	sort.Strings(names)
+	t := []string{model.H(o.id), fmt.Sprint(len(names))}
+	for _, n := range names {
+		t = append(t, model.H(n), o.fields[n].enc())
+	}
+	return t
+}
+
+func randBoundFor(rng *rand.Rand, objs []wobj, name string, allowNaN bool) wval {
+	if rng.Intn(3) > 0 && len(objs) > 0 { // exactly ON a stored value (or on the 0 of a missing field)
+		return respell(rng, objs[rng.Intn(len(objs))].get(name), ctxBound)
+	}
+	return randWval(rng, ctxBound, allowNaN)
+}
+
+func randClause(rng *rand.Rand, objs []wobj, allowNaN bool) wclause {
+	name := []string{"f", "f", "g"}[rng.Intn(3)]
+	var c wclause
+	switch x := rng.Intn(10); {
+	case x < 5:
+		lo, hi := randBoundFor(rng, objs, name, allowNaN), randBoundFor(rng, objs, name, allowNaN)
+		if wcmp(lo, hi) > 0 && rng.Intn(4) > 0 {
+			lo, hi = hi, lo
+		}
+		c = wclause{name: name, minx: rng.Intn(2) == 0, maxx: rng.Intn(2) == 0, lo: lo, hi: hi}
+	case x < 8:
+		c = wclause{name: name, op: []string{"<", "<=", ">", ">=", "==", "!="}[rng.Intn(6)], hi: randBoundFor(rng, objs, name, allowNaN)}
+	default:
+		c = wclause{wherein: true, name: name}
+		for i, n := 0, rng.Intn(4); i < n; i++ {
+			if rng.Intn(3) > 0 && len(objs) > 0 {
+				c.vals = append(c.vals, respell(rng, objs[rng.Intn(len(objs))].get(name), ctxWherein))
+			} else {
+				c.vals = append(c.vals, randWval(rng, ctxWherein, allowNaN))
+			}
+		}
+	}
+	c.classify()
+	return c
+}
+
+// the fixed regression part: one object per interesting value of f, and every bound combination
+func directedObjects() []wobj {
+	vals := []wval{
+		numVal(0, 0), numVal(0, 6), numVal(1000, 0), numVal(2000, 0), numVal(2500, 0), numVal(3000, 0), numVal(4000, 0),
+		numVal(5000, 0), numVal(5000, 1), numVal(-1000, 0), numVal(-2500, 0), numVal(1, 0), numVal(-1, 0), numVal(1000, 3),
+		numVal(1000000, 0), infVal(false, 0, false), infVal(true, 0, false),
+		strVal("aB", false), strVal("Ab", true), strVal("ab", false), strVal("b", false), strVal("", true), strVal("_a", true),
+		strVal("Z", false), strVal("a", false), strVal("B_", false), strVal("b^", false),
+		litVal(kTrue, false), litVal(kFalse, false), litVal(kNull, false),
+		jsonVal(0), jsonVal(2), jsonVal(5), jsonVal(9), jsonVal(8),
+	}
+	objs := []wobj{{id: "o00", fields: map[string]wval{}}} // no field at all
+	for i, v := range vals {
+		o := wobj{id: fmt.Sprintf("o%02d", i+1), fields: map[string]wval{"f": v}}
+		if i%3 == 0 {
+			o.fields["g"] = numVal(int64(i%4)*1000, 0)
+		}
+		objs = append(objs, o)
+	}
+	return objs
+}
+
+func directedQueries() [][]wclause {
+	var qs [][]wclause
+	add := func(cs ...wclause) {
+		for i := range cs {
+			cs[i].classify()
+		}
+		qs = append(qs, cs)
+	}
+	flags := [][2]bool{{false, false}, {false, true}, {true, false}, {true, true}}
+	nums := []int64{-2500, 0, 1000, 2000, 2500, 5000}
+	for i, a := range nums {
+		for _, b := range nums[i:] {
+			for _, fl := range flags {
+				add(wclause{name: "f", minx: fl[0], maxx: fl[1], lo: numVal(a, 0), hi: numVal(b, 0)})
+			}
+		}
+	}
+	pairs := [][2]wval{
+		{strVal("ab", true), strVal("b", true)}, {strVal("AB", true), strVal("aB", false)}, {strVal("", true), strVal("a", true)},
+		{strVal("Z", true), strVal("_a", true)}, {strVal("B_", true), strVal("b^", true)},
+		{litVal(kFalse, false), litVal(kTrue, false)}, {litVal(kNull, false), jsonVal(0)}, {litVal(kTrue, true), litVal(kTrue, false)},
+		{infVal(true, 0, true), infVal(false, 1, true)}, {numVal(5000, 0), infVal(false, 0, true)}, {infVal(true, 0, true), numVal(0, 0)},
+		{numVal(0, 0), strVal("ab", true)}, {litVal(kFalse, false), numVal(0, 0)}, {strVal("b", true), litVal(kTrue, false)},
+		{jsonVal(2), jsonVal(5)}, {jsonVal(0), jsonVal(0)}, {jsonVal(8), jsonVal(8)}, {jsonVal(9), jsonVal(9)},
+		{numVal(-1, 0), numVal(1, 0)}, {numVal(1000, 3), numVal(1000, 1)}, {numVal(1000000, 0), numVal(1000000, 0)},
+	}
+	for _, p := range pairs {
+		for _, fl := range flags {
+			add(wclause{name: "f", minx: fl[0], maxx: fl[1], lo: p[0], hi: p[1]})
+		}
+	}
+	operands := []wval{numVal(0, 0), numVal(5000, 2), numVal(-2500, 0), strVal("ab", false), strVal("AB", false), strVal("", true),
+		strVal("_a", true), litVal(kTrue, false), litVal(kFalse, true), litVal(kNull, false), jsonVal(2), jsonVal(9),
+		infVal(false, 0, true), infVal(true, 0, true), nanVal(0)}
+	for _, op := range []string{"<", "<=", ">", ">=", "==", "!="} {
+		for _, v := range operands {
+			add(wclause{name: "f", op: op, hi: v})
+		}
+	}
+	add(wclause{wherein: true, name: "f", vals: []wval{numVal(0, 0)}})
+	add(wclause{wherein: true, name: "f", vals: []wval{numVal(5000, 1), strVal("AB", false)}})
+	add(wclause{wherein: true, name: "f", vals: []wval{litVal(kTrue, false), litVal(kNull, false)}})
+	add(wclause{wherein: true, name: "f", vals: []wval{jsonVal(3), numVal(2500, 0), jsonVal(9)}})
+	add(wclause{wherein: true, name: "f"})
+	add(wclause{wherein: true, name: "g", vals: []wval{numVal(0, 0), numVal(3000, 0)}})
+	add(wclause{name: "g", lo: numVal(0, 0), hi: numVal(0, 0), maxx: true})
+	add(wclause{name: "nosuchfield", lo: numVal(0, 0), hi: numVal(0, 0)})
+	add(wclause{name: "nosuchfield", lo: numVal(0, 0), hi: numVal(0, 0), minx: true})
+	add(wclause{name: "f", lo: numVal(1000, 0), hi: numVal(5000, 0), maxx: true}, wclause{name: "g", op: "==", hi: numVal(0, 0)})
+	add(wclause{name: "f", op: ">=", hi: numVal(0, 0)}, wclause{wherein: true, name: "f", vals: []wval{numVal(0, 0), numVal(5000, 0), strVal("b", false)}})
+	// a quoted "<" as the lower bound is taken for the operator by matchField (model only)
+	q := wclause{name: "f", lo: strVal("<", true), hi: numVal(5000, 0), noOracle: "string bound spelled like an operator"}
+	qs = append(qs, []wclause{q})
+	return qs
+}
+
+func reverseStrings(a []string) []string {
+	out := make([]string, len(a))
+	for i := range a {
+		out[len(a)-1-i] = a[i]
+	}
+	return out
+}
+
+func idsOf(v srv.Value) ([]string, bool) {
+	if v.Kind != '*' || len(v.Array) != 2 {
+		return nil, false
+	}
+	out := []string{}
+	for _, e := range v.Array[1].Array {
+		out = append(out, e.Str)
+	}
+	return out, true
+}
+
+func c12Where(r *hx.Result, cfg hx.Config, rng *rand.Rand, drv *model.Driver) {
+	rounds, queries := 3, 250
+	if cfg.Tier == "thorough" || cfg.Search {
+		rounds, queries = 30, 600
+	}
+	for round := 0; round < rounds; round++ {
+		s, err := srv.Start(filepath.Join(cfg.Work, fmt.Sprintf("c12w-%d", round)), "--appendonly", "no")
+		if err != nil {
+			panic(err)
+		}
+		func() {
+			defer s.Kill()
+			c := s.MustDial()
+			defer c.Close()
+			var objs []wobj
+			var qs [][]wclause
+			allowNaN := round%3 == 2 // every third dataset also stores NaN fields
+			if round == 0 {
+				objs = directedObjects()
+				qs = directedQueries()
+			} else {
+				for i, n := 0, 12+rng.Intn(20); i < n; i++ {
+					o := wobj{id: fmt.Sprintf("o%02d", i), fields: map[string]wval{}}
+					for _, name := range []string{"f", "g"} {
+						if rng.Intn(6) > 0 {
+							o.fields[name] = randWval(rng, ctxField, allowNaN)
+						}
+					}
+					objs = append(objs, o)
+				}
+			}
+			for len(qs) < queries {
+				q := []wclause{randClause(rng, objs, allowNaN)}
+				if rng.Intn(4) == 0 {
+					q = append(q, randClause(rng, objs, allowNaN))
+				}
+				qs = append(qs, q)
+			}
+			for i, o := range objs {
+				set := []string{"SET", "k", o.id}
+				str := []string{"SET", "strs", o.id}
+				for _, n := range []string{"f", "g"} {
+					if v, ok := o.fields[n]; ok {
+						set = append(set, "FIELD", n, v.tok)
+						str = append(str, "FIELD", n, v.tok)
+					}
+				}
+				if v := c.MustDo(append(set, "POINT", fmt.Sprint(i%9), fmt.Sprint(i/9))...); v.IsErr() {
+					panic("SET failed: " + v.Str)
+				}
+				if v := c.MustDo(append(str, "STRING", "v-"+o.id)...); v.IsErr() {
+					panic("SET STRING failed: " + v.Str)
+				}
+			}
+			objToks := []string{fmt.Sprint(len(objs))}
+			for _, o := range objs {
+				objToks = append(objToks, o.modelToks()...)
+			}
+			for qi, q := range qs {
+				var args, wtoks, witoks, descr []string
+				nw, nwi := 0, 0
+				noOracle := ""
+				for _, cl := range q {
+					args = append(args, cl.args()...)
+					descr = append(descr, cl.describe())
+					if cl.wherein {
+						nwi++
+						witoks = append(witoks, cl.modelToks()...)
+					} else {
+						nw++
+						wtoks = append(wtoks, cl.modelToks()...)
+					}
+					if cl.noOracle != "" {
+						noOracle = cl.noOracle
+					}
+				}
+				filt := append(append([]string{fmt.Sprint(nw)}, wtoks...), append([]string{fmt.Sprint(nwi)}, witoks...)...)
+				cmd := func(head []string, tail ...string) srv.Value {
+					return c.MustDo(append(append(append([]string{}, head...), args...), tail...)...)
+				}
+				show := strings.Join(args, " ")
+				cs := map[string]interface{}{"round": round, "query": fmt.Sprintf("%q", args), "meaning": strings.Join(descr, " AND ")}
+				asc, ok := idsOf(cmd([]string{"SCAN", "k"}, "IDS"))
+				if !ok {
+					r.Fail(hx.Failure{Kind: "oracle", Signature: "where-rejected",
+						What: fmt.Sprintf("SCAN k %s IDS was not answered with an id list", show), Case: cs})
+					continue
+				}
+				// (a) correspondence with the extracted model
+				ask := func(desc bool) (int, []string) {
+					rep := strings.Fields(drv.Ask(append(append([]string{"where_scan", model.B(desc)}, objToks...), filt...)...))
+					n := -1
+					ids := []string{}
+					if len(rep) > 0 {
+						fmt.Sscan(rep[0], &n)
+						for _, h := range rep[1:] {
+							ids = append(ids, model.U(h))
+						}
+					}
+					return n, ids
+				}
+				mcount, mids := ask(false)
+				if strings.Join(asc, " ") != strings.Join(mids, " ") {
+					r.Fail(hx.Failure{Kind: "correspondence", Signature: "where-model",
+						What: fmt.Sprintf("SCAN k %s IDS differs from Model.Where.scan_ids", show), Case: cs,
+						Impl: strings.Join(asc, " "), Model: strings.Join(mids, " ")})
+				}
+				// (b) the documented rule, evaluated here; objects whose field is NaN are left out
+				want, got := []string{}, []string{}
+				skip := map[string]bool{}
+				if noOracle == "" {
+					for _, o := range objs {
+						keep := true
+						for _, cl := range q {
+							v := o.get(cl.name)
+							if v.isNaN() {
+								skip[o.id] = true
+							}
+							keep = keep && cl.keeps(v)
+						}
+						if keep && !skip[o.id] {
+							want = append(want, o.id)
+						}
+					}
+					for _, id := range asc {
+						if !skip[id] {
+							got = append(got, id)
+						}
+					}
+					if strings.Join(got, " ") != strings.Join(want, " ") {
+						detail := []string{}
+						inWant := map[string]bool{}
+						for _, id := range want {
+							inWant[id] = true
+						}
+						inGot := map[string]bool{}
+						for _, id := range got {
+							inGot[id] = true
+						}
+						for _, o := range objs {
+							if inWant[o.id] != inGot[o.id] && !skip[o.id] {
+								k := "extra"
+								if inWant[o.id] {
+									k = "missing"
+								}
+								detail = append(detail, fmt.Sprintf("%s %s(%s=%s)", k, o.id, q[0].name, o.get(q[0].name)))
+							}
+						}
+						r.Fail(hx.Failure{Kind: "oracle", Signature: "where-filter",
+							What: fmt.Sprintf("SCAN k %s IDS returned %v; the objects with %s (missing field = 0) are %v: %s",
+								show, got, strings.Join(descr, " AND "), want, strings.Join(detail, ", ")), Case: cs})
+					}
+				}
+				kind := "range"
+				if q[0].wherein {
+					kind = "wherein"
+				} else if q[0].op != "" {
+					kind = "op" + q[0].op
+				} else {
+					kind = fmt.Sprintf("range-%s%s", model.B(q[0].minx), model.B(q[0].maxx))
+				}
+				r.Dist("where:" + kind)
+				if noOracle != "" {
+					r.Dist("where:model-only")
+				}
+				r.Count(fmt.Sprintf("w%d/%s", round, show), len(asc) > 0 && len(asc) < len(objs))
+				// COUNT = |IDS|
+				if cv := cmd([]string{"SCAN", "k"}, "COUNT"); cv.Kind != ':' || int(cv.Int) != len(asc) {
+					r.Fail(hx.Failure{Kind: "oracle", Signature: "where-count",
+						What: fmt.Sprintf("SCAN k %s COUNT = %s but IDS returns %d ids", show, cv.String(), len(asc)), Case: cs})
+				} else if mcount != len(mids) || int(cv.Int) != mcount {
+					r.Fail(hx.Failure{Kind: "correspondence", Signature: "where-model-count",
+						What: fmt.Sprintf("SCAN k %s COUNT differs from Model.Where.scan_count", show), Case: cs, Impl: cv.String(), Model: mcount})
+				}
+				// DESC = reverse of ASC
+				desc, ok := idsOf(cmd([]string{"SCAN", "k"}, "DESC", "IDS"))
+				if !ok || strings.Join(desc, " ") != strings.Join(reverseStrings(asc), " ") {
+					r.Fail(hx.Failure{Kind: "oracle", Signature: "where-desc",
+						What: fmt.Sprintf("SCAN k %s DESC IDS returned %v, ASC returned %v: not the reverse", show, desc, asc), Case: cs})
+				} else if _, mdesc := ask(true); strings.Join(desc, " ") != strings.Join(mdesc, " ") {
+					r.Fail(hx.Failure{Kind: "correspondence", Signature: "where-model-desc",
+						What: fmt.Sprintf("SCAN k %s DESC IDS differs from Model.Where.scan_ids", show), Case: cs,
+						Impl: strings.Join(desc, " "), Model: strings.Join(mdesc, " ")})
+				}
+				if cv := cmd([]string{"SCAN", "k"}, "DESC", "COUNT"); cv.Kind != ':' || int(cv.Int) != len(asc) {
+					r.Fail(hx.Failure{Kind: "oracle", Signature: "where-count",
+						What: fmt.Sprintf("SCAN k %s DESC COUNT = %s but IDS returns %d ids", show, cv.String(), len(asc)), Case: cs})
+				}
+				// the other commands going through the same filter: same set, COUNT = |IDS|
+				if qi%3 == 0 || round == 0 {
+					others := []struct {
+						what       string
+						head, tail []string
+						ordered    bool
+					}{
+						{"SEARCH strs", []string{"SEARCH", "strs"}, nil, true},
+						{"SEARCH strs DESC", []string{"SEARCH", "strs", "DESC"}, nil, true},
+						{"WITHIN k", []string{"WITHIN", "k"}, []string{"BOUNDS", "-90", "-180", "90", "180"}, false},
+						{"INTERSECTS k", []string{"INTERSECTS", "k"}, []string{"BOUNDS", "-90", "-180", "90", "180"}, false},
+						{"NEARBY k", []string{"NEARBY", "k"}, []string{"POINT", "1", "1"}, false},
+					}
+					for _, oc := range others {
+						ids, ok := idsOf(cmd(oc.head, append([]string{"IDS"}, oc.tail...)...))
+						ref := asc
+						if strings.HasSuffix(oc.what, "DESC") {
+							ref = reverseStrings(asc)
+						}
+						if ok && !oc.ordered {
+							ids = append([]string{}, ids...)
+							sort.Strings(ids)
+						}
+						r.Dist("where:" + strings.Fields(oc.what)[0])
+						if !ok || strings.Join(ids, " ") != strings.Join(ref, " ") {
+							r.Fail(hx.Failure{Kind: "oracle", Signature: "where-same-filter",
+								What: fmt.Sprintf("%s %s IDS returned %v but SCAN k with the same filter returned %v", oc.what, show, ids, ref), Case: cs})
+							continue
+						}
+						if cv := cmd(oc.head, append([]string{"COUNT"}, oc.tail...)...); cv.Kind != ':' || int(cv.Int) != len(ids) {
+							r.Fail(hx.Failure{Kind: "oracle", Signature: "where-count",
+								What: fmt.Sprintf("%s %s COUNT = %s but IDS returns %d ids", oc.what, show, cv.String(), len(ids)), Case: cs})
+						}
+					}
+				}
+				if len(asc) > 0 && len(asc) < len(objs) && qi%40 == 7 {
+					r.Sample(12, map[string]interface{}{"where_query": show, "meaning": strings.Join(descr, " AND "), "kept": len(asc), "objects": len(objs)})
+				}
 			}
 		}()
 	}
